@@ -43,7 +43,7 @@ Definition is_slot (k : lkind) (ns : Z) (r : range) (a : Z) : bool :=
 (* alignment the list promises for its nodes *)
 Definition al_of (ns : Z) : Z := Z.of_N (alignment_for (Z.to_N ns)).
 
-Record lst := { l_kind : lkind; l_ns : Z; l_ranges : list range; l_allocs : list (Z * Z) (* address, slots *); l_nfree : Z }.
+Record lst := { l_kind : lkind; l_ns : Z; l_allocs : list (Z * Z) (* address, slots *); l_nfree : Z }.
 
 Definition slots_needed (ns bytes : Z) : Z := if bytes <=? ns then 1 else (bytes + ns - 1) / ns.
 
@@ -55,14 +55,17 @@ Definition live_slots (l : lst) : list Z :=
 
 Definition zmem (a : Z) (l : list Z) : bool := existsb (Z.eqb a) l.
 
-Definition slot_of_list (l : lst) (a : Z) : bool := existsb (fun r => is_slot (l_kind l) (l_ns l) r a) (l_ranges l).
+(* every range ever handed to a list, newest first, tagged with the node size of the owning list
+   (tag 0: memory reserved for the allocator's own data, e.g. the free-list array of a collection) *)
+Definition tagged := (Z * range)%type.
+
+Definition slot_of (rs : list tagged) (l : lst) (a : Z) : bool :=
+  existsb (fun x => (fst x =? l_ns l) && is_slot (l_kind l) (l_ns l) (snd x) a) rs.
 
 (* a node is on the free list iff it was created by some insert and is not handed out *)
-Definition in_free (l : lst) (a : Z) : bool := slot_of_list l a && negb (zmem a (live_slots l)).
+Definition in_free (rs : list tagged) (l : lst) (a : Z) : bool := slot_of rs l a && negb (zmem a (live_slots l)).
 
-Record ast := { a_lists : list lst; a_held : list range (* upstream blocks, newest first *); a_resv : list range }.
-
-Definition all_ranges (s : ast) : list range := flat_map l_ranges (a_lists s) ++ a_resv s.
+Record ast := { a_lists : list lst; a_ranges : list tagged; a_held : list range (* upstream blocks, newest first *) }.
 
 Fixpoint find_list (ns : Z) (ls : list lst) : option lst :=
   match ls with [] => None | l :: tl => if l_ns l =? ns then Some l else find_list ns tl end.
@@ -73,35 +76,33 @@ Fixpoint set_list (l' : lst) (ls : list lst) : list lst :=
 Inductive ev :=
   | EUp (addr size : Z)            (* upstream allocation succeeded *)
   | EUpFail                         (* upstream allocation failed *)
-  | EDown (addr size : Z)          (* block returned upstream *)
-  | EIns (ns mem size : Z).        (* range handed to the list with node size ns *)
+  | EIns (ns mem size : Z)         (* range handed to the list with node size ns *)
+  | EResv (mem size : Z).          (* range the allocator keeps for its own data *)
 
 Definition usable (b : range) : range := (fst b + hdrZ, snd b - hdrZ).
+
+Definition range_ok (s : ast) (r : range) : bool :=
+  (0 <? snd r) && existsb (fun b => r_inside r (usable b)) (a_held s) && forallb (fun x => r_disj r (snd x)) (a_ranges s).
 
 Definition acc_ev (s : ast) (e : ev) : option ast :=
   match e with
   | EUp addr size =>
       if (0 <? addr) && (hdrZ <? size) && (addr mod maxalZ =? 0) && forallb (r_disj (addr, size)) (a_held s)
-      then Some {| a_lists := a_lists s; a_held := (addr, size) :: a_held s; a_resv := a_resv s |} else None
+      then Some {| a_lists := a_lists s; a_ranges := a_ranges s; a_held := (addr, size) :: a_held s |} else None
   | EUpFail => Some s
-  | EDown addr size =>
-      match a_held s with
-      | (a0, s0) :: tl => if (a0 =? addr) && (s0 =? size) then Some {| a_lists := a_lists s; a_held := tl; a_resv := a_resv s |} else None
-      | [] => None
-      end
+  | EResv mem size =>
+      if range_ok s (mem, size)
+      then Some {| a_lists := a_lists s; a_ranges := (0, (mem, size)) :: a_ranges s; a_held := a_held s |} else None
   | EIns ns mem size =>
       match find_list ns (a_lists s) with
       | None => None
       | Some l =>
           let r := (mem, size) in
           let n := nodes_of (l_kind l) ns r in
-          if (0 <? n)
-             && existsb (fun b => r_inside r (usable b)) (a_held s)
-             && forallb (r_disj r) (all_ranges s)
+          if (0 <? n) && range_ok s r
              && (mem mod (match l_kind l with LIntrusive => al_of ns | LSmall => maxalZ end) =? 0)
-          then Some {| a_lists := set_list {| l_kind := l_kind l; l_ns := ns; l_ranges := r :: l_ranges l;
-                                             l_allocs := l_allocs l; l_nfree := l_nfree l + n |} (a_lists s);
-                       a_held := a_held s; a_resv := a_resv s |}
+          then Some {| a_lists := set_list {| l_kind := l_kind l; l_ns := ns; l_allocs := l_allocs l; l_nfree := l_nfree l + n |} (a_lists s);
+                       a_ranges := (ns, r) :: a_ranges s; a_held := a_held s |}
           else None
       end
   end.
@@ -119,9 +120,9 @@ Inductive op :=
 Definition is_up (e : ev) : bool := match e with EUp _ _ | EUpFail => true | _ => false end.
 Definition is_grow (e : ev) : bool := match e with EUp _ _ | EUpFail | EIns _ _ _ => true | _ => false end.
 
-Definition take_slots (l : lst) (p : Z) (k : Z) : option lst :=
-  if (1 <=? k) && (k <=? l_nfree l) && forallb (in_free l) (slot_addrs (l_ns l) p (Z.to_nat k))
-  then Some {| l_kind := l_kind l; l_ns := l_ns l; l_ranges := l_ranges l; l_allocs := (p, k) :: l_allocs l; l_nfree := l_nfree l - k |}
+Definition take_slots (rs : list tagged) (l : lst) (p : Z) (k : Z) : option lst :=
+  if (1 <=? k) && (k <=? l_nfree l) && forallb (in_free rs l) (slot_addrs (l_ns l) p (Z.to_nat k))
+  then Some {| l_kind := l_kind l; l_ns := l_ns l; l_allocs := (p, k) :: l_allocs l; l_nfree := l_nfree l - k |}
   else None.
 
 Fixpoint remove_alloc (p k : Z) (al : list (Z * Z)) : option (list (Z * Z)) :=
@@ -134,8 +135,11 @@ Fixpoint remove_alloc (p k : Z) (al : list (Z * Z)) : option (list (Z * Z)) :=
 Definition give_slots (l : lst) (p : Z) (k : Z) : option lst :=
   match remove_alloc p k (l_allocs l) with
   | None => None
-  | Some al => Some {| l_kind := l_kind l; l_ns := l_ns l; l_ranges := l_ranges l; l_allocs := al; l_nfree := l_nfree l + k |}
+  | Some al => Some {| l_kind := l_kind l; l_ns := l_ns l; l_allocs := al; l_nfree := l_nfree l + k |}
   end.
+
+Definition with_list (s : ast) (l' : lst) : ast :=
+  {| a_lists := set_list l' (a_lists s); a_ranges := a_ranges s; a_held := a_held s |}.
 
 (* one observed operation: its sub-events, then its result *)
 Definition acc_op (s : ast) (o : op) (evs : list ev) (r : obs) : option ast :=
@@ -156,9 +160,9 @@ Definition acc_op (s : ast) (o : op) (evs : list ev) (r : obs) : option ast :=
                   match find_list ns (a_lists s1) with
                   | None => None
                   | Some l =>
-                      match take_slots l p (slots_needed ns bytes) with
+                      match take_slots (a_ranges s1) l p (slots_needed ns bytes) with
                       | None => None
-                      | Some l' => Some {| a_lists := set_list l' (a_lists s1); a_held := a_held s1; a_resv := a_resv s1 |}
+                      | Some l' => Some (with_list s1 l')
                       end
                   end
               | ObsNull => if try_ then Some s1 else None     (* a throwing function never returns null *)
@@ -172,17 +176,21 @@ Definition acc_op (s : ast) (o : op) (evs : list ev) (r : obs) : option ast :=
       | [], ObsTrue, Some l =>
           match give_slots l p (slots_needed ns bytes) with
           | None => None
-          | Some l' => Some {| a_lists := set_list l' (a_lists s); a_held := a_held s; a_resv := a_resv s |}
+          | Some l' => Some (with_list s l')
           end
       | [], ObsFalse, _ => Some s
       | _, _, _ => None
       end
   end.
 
+(* destruction: every block goes back upstream, newest first, same address and size *)
+Definition destroy_ok (s : ast) (downs : list range) : bool :=
+  (length downs =? length (a_held s))%nat && forallb (fun x => (fst (fst x) =? fst (snd x)) && (snd (fst x) =? snd (snd x))) (combine downs (a_held s)).
+
 Definition capacity_bytes (s : ast) (ns : Z) : option Z :=
   match find_list ns (a_lists s) with None => None | Some l => Some (l_nfree l * ns) end.
 Definition capacity_nodes (s : ast) (ns : Z) : option Z :=
   match find_list ns (a_lists s) with None => None | Some l => Some (l_nfree l) end.
 
-Definition mk_list (k : lkind) (ns : Z) : lst := {| l_kind := k; l_ns := ns; l_ranges := []; l_allocs := []; l_nfree := 0 |}.
-Definition mk_ast (ls : list lst) (resv : list range) : ast := {| a_lists := ls; a_held := []; a_resv := resv |}.
+Definition mk_list (k : lkind) (ns : Z) : lst := {| l_kind := k; l_ns := ns; l_allocs := []; l_nfree := 0 |}.
+Definition mk_ast (ls : list lst) : ast := {| a_lists := ls; a_ranges := []; a_held := [] |}.
